@@ -74,6 +74,24 @@ theorem same_method_for_every_entry (old added new : ClassDef) (hnew : new.Perm 
   have := (same_method_on_old_and_new_code old added new hnew hver).1 fid d hd
   exact applyEntry_ran_of_id hc (by rw [hb]; exact this)
 
+/-- **An entry whose method id this code does not have** (reachable only when the hypothesis of `ids_stable` is broken,
+or for a corrupt entry) is not a stop and not a misapplication: no implementation runs, the `KeyError` is logged and
+becomes the command's result (subscribers of the entry's term get `(KeyError(id), SUCCESS)`, others
+`(None, DISCARDED)`), the entry is consumed and the loop goes on (repair D9 of `__doApplyCommand`). -/
+theorem unknown_id_is_applied_with_exception_result (n : Node) (fid arg idx term : Nat)
+    (h : (idToMethod n.cls)[fid]? = none) :
+    ∃ n', applyEntry n ⟨.regular fid arg, idx, term⟩ =
+        (n', Ev.unknownId idx fid :: fireCallbacks (popWaiting n.waiting idx).1 term (.keyError fid), true) ∧
+      ranIdxs (Ev.unknownId idx fid :: fireCallbacks (popWaiting n.waiting idx).1 term (.keyError fid)) = [] ∧
+      n'.lastApplied = n.lastApplied + 1 ∧ n'.enabled = n.enabled ∧ n'.tableVer = n.tableVer ∧
+      n'.waiting = (popWaiting n.waiting idx).2 := by
+  unfold applyEntry
+  simp only [h]
+  exact ⟨_, rfl, by simp [ranIdxs, ranIdxs_fireCallbacks], rfl, rfl, rfl, rfl⟩
+
+example : ∃ (n : Node) (fid : Nat), (idToMethod n.cls)[fid]? = none ∧ n.waiting ≠ [] :=
+  ⟨{ initNode [] with waiting := [(2, [(1, 7)])] }, 0, by decide +kernel, by decide⟩
+
 /-- The ids do not depend on the order in which the methods are found. -/
 theorem ids_independent_of_declaration_order (c₁ c₂ : ClassDef) (h : c₁.Perm c₂) : idToMethod c₁ = idToMethod c₂ :=
   idToMethod_perm h
@@ -184,7 +202,9 @@ example : ∃ (n n' : Node) (es : List Entry) (evs : List Ev), applyBatch n es =
 
 /-! ## A node that lacks an enabled version stops applying -/
 
-/-- **Unsupported version stops the node - for every batch split and any number of ticks.** The log of `n` is
+/-- **Unsupported version stops the node - for every batch split and any number of ticks.** (Unchanged by the D9
+repair: entries with an unknown method id before `e` are now consumed like any other entry - see
+`unknown_id_is_applied_with_exception_result` - which only moves `lastApplied` closer to `e`, never past it.) The log of `n` is
 consecutive from `f`; it contains a VERSION entry `e` the node's code does not have, not yet applied. Whatever
 sequence of ticks, commit moves, appends (continuing the numbering) and subscriptions follows: `lastApplied` stays
 below `e`, every implementation that runs belongs to an entry before `e`, the positions of the entries that run are
@@ -227,6 +247,17 @@ example : ∃ (n : Node) (ops : List Op) (f : Nat) (e : Entry),
       · simp only [List.mem_singleton] at hc; subst hc; exact h.symm
     show selfCodeVersion [⟨0, [102], 0⟩] < 1
     omega
+
+/-- **Nothing but an unsupported version stops a node.** A batch is either consumed completely, or it contains a
+VERSION entry the code does not have and is consumed exactly up to the first such entry (every entry before it is
+applied, `lastApplied` points just before it). An unknown method id, a no-op, a membership or an unknown-type entry
+never stops it. So "stops applying" happens for the reason the property names and for no other. -/
+theorem only_unsupported_version_stops_a_batch (n n' : Node) (es : List Entry) (evs : List Ev)
+    (h : applyBatch n es = (n', evs)) :
+    n'.lastApplied = n.lastApplied + es.length ∨
+    ∃ pre e post, es = pre ++ e :: post ∧ Unsupported n.cls e ∧ (∀ x ∈ pre, ¬ Unsupported n.cls x) ∧
+      n'.lastApplied = n.lastApplied + pre.length :=
+  applyBatch_stops_only_at_unsupported es n n' evs h
 
 /-- One batch: the WrongVer branch leaves the node exactly as it was - subscribers of the VERSION entry included
 (repair D10) - and ends the batch. -/
